@@ -20,6 +20,11 @@ pub struct P(pub u32);
 pub struct S(pub u32);
 #[derive(Component, Serialize, Deserialize, Clone, PartialEq, Debug)]
 pub struct R(#[entities] pub Entity);
+/// `X` and `Y` are covered by ONE rule, `replicate_bundle::<(X, Y)>()`: replicated only while an entity has both.
+#[derive(Component, Serialize, Deserialize, Clone, PartialEq, Debug)]
+pub struct X(pub u32);
+#[derive(Component, Serialize, Deserialize, Clone, PartialEq, Debug)]
+pub struct Y(pub u32);
 /// Only registered on clients with a deliberately different protocol.
 #[derive(Component, Serialize, Deserialize, Clone, PartialEq, Debug)]
 pub struct Extra(pub u32);
@@ -32,6 +37,9 @@ pub enum K {
     O,
     P,
     S,
+    /// the two parts of the bundle rule (only with `Cfg::bundle`)
+    X,
+    Y,
 }
 pub const KS: [K; 6] = [K::A, K::B, K::C, K::O, K::P, K::S];
 
@@ -127,6 +135,9 @@ pub struct Cfg {
     /// every client is connected before the first generated step (otherwise only client 0)
     #[serde(default)]
     pub connect_all: bool,
+    /// register `replicate_bundle::<(X, Y)>()` and generate the component kinds X and Y
+    #[serde(default)]
+    pub bundle: bool,
 }
 
 impl Default for Cfg {
@@ -155,6 +166,7 @@ impl Default for Cfg {
             start_tick: 0,
             big_jumps: false,
             connect_all: false,
+            bundle: false,
         }
     }
 }
